@@ -9,7 +9,7 @@
 use crate::rng::Rng;
 
 pub const BRANCHES: usize = 9;
-pub const GLUES: usize = 10;
+pub const GLUES: usize = 17;
 
 #[derive(Clone, Debug)]
 pub struct Shape {
@@ -44,9 +44,12 @@ impl Shape {
 
 pub const BRANCH_NAMES: [&str; BRANCHES] = ["if", "if-zero", "match3", "match5", "label-goto", "call-of-if", "known-match", "object-by-if", "match-of-match"];
 pub const GLUE_NAMES: [&str; GLUES] =
-    ["let", "else-branch", "clause", "operand", "print", "call-argument", "closure", "destructor", "objects-by-match", "label-result"];
+    [
+    "let", "else-branch", "clause", "operand", "print", "call-argument", "closure", "destructor", "objects-by-match", "label-result",
+    "one-clause-match-of-conditional", "one-clause-match-of-match", "body-of-applied-object", "bound-position", "scrutinee-argument", "condition", "goto-argument",
+];
 
-const DECLS: &str = "data T3 { A, B, C }\ndata T5 { K1, K2(x: i64), K3(x: i64, y: i64), K4, K5(t: T3) }\ncodata Obj3 { m1: i64, m2(x: i64): i64, m3: Obj3 }\ncodata Fun { ap(x: i64): i64 }\ndef mk(n: i64): T3 { if n == 0 { A } else { if n == 1 { B } else { C } } }\ndef mk5(n: i64): T5 { if n == 0 { K1 } else { if n == 1 { K2(n) } else { if n == 2 { K3(n, n) } else { if n == 3 { K4 } else { K5(mk(n)) } } } } }\ndef obj(n: i64): Obj3 { new { m1 => n, m2(x) => x + n, m3 => obj(n + 1) } }\ndef id(x: i64): i64 { x }\ndef add3(a: i64, b: i64, c: i64): i64 { a + (b + c) }\n";
+const DECLS: &str = "data P2 { Tup(a: i64, b: i64) }\ndata T3 { A, B, C }\ndata T5 { K1, K2(x: i64), K3(x: i64, y: i64), K4, K5(t: T3) }\ncodata Obj3 { m1: i64, m2(x: i64): i64, m3: Obj3 }\ncodata Fun { ap(x: i64): i64 }\ndef mk(n: i64): T3 { if n == 0 { A } else { if n == 1 { B } else { C } } }\ndef mk5(n: i64): T5 { if n == 0 { K1 } else { if n == 1 { K2(n) } else { if n == 2 { K3(n, n) } else { if n == 3 { K4 } else { K5(mk(n)) } } } } }\ndef obj(n: i64): Obj3 { new { m1 => n, m2(x) => x + n, m3 => obj(n + 1) } }\ndef id(x: i64): i64 { x }\ndef add3(a: i64, b: i64, c: i64): i64 { a + (b + c) }\n";
 
 /// an integer expression that branches; `x` is an identifier
 fn branch(b: usize, i: usize, x: &str) -> String {
@@ -82,7 +85,18 @@ fn glue(g: usize, b: usize, i: usize, prev: &str, rest: &dyn Fn(&str) -> String)
             branch(b, i, &format!("w{i}")),
             rest(&v)
         ),
-        _ => format!("let {v}: i64 = label r{i} {{ if {prev} == {i} {{ goto r{i}({be}) }} else {{ {be} }} }};\n  {}", rest(&v)),
+        9 => format!("let {v}: i64 = label r{i} {{ if {prev} == {i} {{ goto r{i}({be}) }} else {{ {be} }} }};\n  {}", rest(&v)),
+        // the rest inside the only clause of a match whose scrutinee is directly a conditional / a match
+        10 => format!("let {v}: i64 = {be};\n  (if {v} == {i} {{ Tup({v}, {i}) }} else {{ Tup({i}, {v}) }}).case {{ Tup(c{i}, d{i}) => {} }}", rest(&format!("c{i}"))),
+        11 => format!("let {v}: i64 = {be};\n  (mk({v}).case {{ A => Tup({v}, {i}), B => Tup({i}, {v}), C => Tup({v}, {v}) }}).case {{ Tup(c{i}, d{i}) => {} }}", rest(&format!("c{i}"))),
+        // the rest as the body of an object that is applied at once
+        12 => format!("new {{ ap(w{i}) => {} }}.ap({be})", rest(&format!("w{i}"))),
+        // the rest in bound (non-tail) position: its continuation is the remainder of this link
+        13 => format!("let {v}: i64 = {be};\n  let r{i}: i64 = ({});\n  r{i} + {v}", rest(&v)),
+        // the rest as the argument of a call that is scrutinised / as a condition / as a jump argument
+        14 => format!("let {v}: i64 = {be};\n  mk(({})).case {{ A => {i}, B => {v}, C => 0 }}", rest(&v)),
+        15 => format!("let {v}: i64 = {be};\n  if ({}) < {i} {{ {v} }} else {{ {i} }}", rest(&v)),
+        _ => format!("let {v}: i64 = {be};\n  label g{i} {{ if {v} == {i} {{ {i} }} else {{ goto g{i}(({})) }} }}", rest(&v)),
     }
 }
 
